@@ -19,11 +19,13 @@ def run(e, R, tier):
         C.r_exc_breadth,
         C.r_feeder,
         C.r_feeder_hook,
+        C.r_user_fmt,
         C.r_result_lock,
         C.r_cause,
         L.r_own_resolve,
         L.r_drop_resolves,
         L.r_callback_lock,
         SC.r_scn_feeder,
+        SC.r_scn_result,
     ])
 
